@@ -370,8 +370,9 @@ class SQLiteStorage(SQLiteMixin):
             ).fetchall()
             if finished:
                 transaction.executemany(
-                    "update blob set status='finished' where blob.blob_hash=?", (
-                        (blob_hash, ) for blob_hash, _, _, _ in blob_hashes_and_lengths
+                    # the length of a verified blob is authoritative, a descriptor may have claimed anything
+                    "update blob set status='finished', blob_length=? where blob.blob_hash=?", (
+                        (length, blob_hash) for blob_hash, length, _, _ in blob_hashes_and_lengths
                     )
                 ).fetchall()
         return await self.db.run(_add_blobs)
